@@ -1011,3 +1011,47 @@ Proof. destruct w as [[a d] e]. split; reflexivity. Qed.
 
 Theorem c_size_positive : (0 < c_size)%nat.
 Proof. unfold c_size, c_size_src. lia. Qed.
+
+(* ------------------------------------------------------------------ *)
+(** * The emitted C step: in-place inserts are safe because lookups come first *)
+Lemma c_exec_inserts nl : forall prog rds (h : cmap), forallb is_insert prog = true ->
+  fold_left (c_exec nl) prog (rds, h) = (rds, fold_left (c_write nl) (c_prog_writes prog) h)
+  /\ c_prog_reads prog = [].
+Proof.
+  induction prog as [|e r IH]; intros rds h H; simpl; [auto|].
+  destruct e as [a|w]; simpl in H; [discriminate|]. destruct (IH rds (c_write nl h w) H) as [H1 H2].
+  simpl. rewrite H1, H2. auto.
+Qed.
+
+Theorem c_prog_step_spec nl : forall prog (h : cmap), lookups_first prog = true ->
+  c_prog_step nl h prog = comp_mem_step nl h (c_prog_writes prog, c_prog_reads prog).
+Proof.
+  unfold c_prog_step, comp_mem_step, mach_step. simpl.
+  assert (G : forall prog rds (h : cmap), lookups_first prog = true ->
+            fold_left (c_exec nl) prog (rds, h)
+            = (rds ++ map (c_lookup nl h) (c_prog_reads prog), fold_left (c_write nl) (c_prog_writes prog) h)).
+  { induction prog as [|e r IH]; intros rds h H; simpl.
+    - rewrite app_nil_r. reflexivity.
+    - destruct e as [a|w]; simpl in H.
+      + simpl. rewrite IH by assumption. rewrite <- app_assoc. reflexivity.
+      + destruct (c_exec_inserts nl r rds (c_write nl h w) H) as [H1 H2].
+        simpl. rewrite H1, H2. simpl. rewrite app_nil_r. reflexivity. }
+  intros prog h H. rewrite G by assumption. reflexivity.
+Qed.
+
+(* ... and the order matters: a lookup emitted after an insert would see the new word *)
+Theorem c_prog_order_matters :
+  exists prog, lookups_first prog = false
+    /\ fst (c_prog_step 1 (c_init 1 c_size []) prog)
+       <> fst (comp_mem_step 1 (c_init 1 c_size []) (c_prog_writes prog, c_prog_reads prog)).
+Proof.
+  exists [CInsert (3, 7, 1); CLookup 3]. split; [reflexivity|]. vm_compute. discriminate.
+Qed.
+
+(* a ROM word needs no masking on its way to the read port *)
+Theorem rom_mask_identity aw bw pad data a v : 0 <= bw ->
+  rom_read aw bw pad data a = RomOk v -> sanitize v bw = v.
+Proof.
+  intros Hbw H. destruct (rom_read_ok aw bw pad data a v Hbw H) as [_ [Hv _]].
+  apply sanitize_id; [assumption|exact Hv].
+Qed.
